@@ -11,7 +11,7 @@ from graphql import ExecutionResult, build_schema, execute_sync, parse
 from graphql.execution import ExecutionHooks, experimental_execute_incrementally
 
 SDL = """
-type Hero { id: ID name: String! slow: String slow2: String friends: [Hero] strictFriends: [Hero!] nn: String! best: Hero bad: String! }
+type Hero { id: ID name: String! slow: String slow2: String friends: [Hero] strictFriends: [Hero!] nn: String! best: Hero bad: String! crew: [Hero!] }
 type Query { hero: Hero heroes: [Hero] strict: Hero! n: Int }
 """
 
@@ -68,9 +68,19 @@ DOCS = [
     # 12 a fragment deferred inside an object that a non-null sibling field nulls
     """query ($d0: Boolean = true, $d1: Boolean = true, $d2: Boolean = true, $d3: Boolean = true) {
       hero { nn name ... @defer(label: "A", if: $d0) { slow slow2 } } n }""",
+    # 13 below an outer defer: every list item declares a defer that contains a nested defer under a sub-object
+    """query ($d0: Boolean = true, $d1: Boolean = true, $d2: Boolean = true, $d3: Boolean = true) {
+      ... @defer(label: "O", if: $d0) { heroes { name ... @defer(label: "O.D", if: $d1) { slow best { name ... @defer(label: "O.D.E", if: $d2) { slow2 } } }
+                                                    ... @defer(label: "O.D2", if: $d1) { slow id } } } }""",
+    # 14 below an outer defer: an (awaitable) object field selected plainly and inside each item's deferred fragment
+    """query ($d0: Boolean = true, $d1: Boolean = true, $d2: Boolean = true, $d3: Boolean = true) {
+      ... @defer(label: "O", if: $d0) { heroes { best { name } ... @defer(label: "O.D", if: $d1) { best { slow id } slow2 } } } }""",
+    # 15 a stream over non-null items whose second item fails as a whole (its non-null field is null, possibly asynchronously)
+    """query ($d0: Boolean = true, $d1: Boolean = true, $d2: Boolean = true, $d3: Boolean = true) {
+      hero { name crew @stream(initialCount: 1, label: "S", if: $d0) { name nn slow } } }""",
 ]
 PARSED = [parse(d) for d in DOCS]
-N_DIRECTIVES = [4, 3, 3, 3, 3, 3, 2, 2, 3, 1, 1, 1, 1]
+N_DIRECTIVES = [4, 3, 3, 3, 3, 3, 2, 2, 3, 1, 1, 1, 1, 3, 2, 1]
 
 ASYNCABLE = ["Hero.slow", "Hero.slow2", "Hero.name", "Query.heroes", "Hero.best", "Hero.nn", "Query.n", "Hero.bad"]
 
@@ -81,26 +91,35 @@ class Boom(Exception):
 
 def make_root(nn_null: bool, bad_raises: bool):
     solo = {"id": "9", "name": "solo", "slow": "s-solo", "slow2": "s2-solo", "friends": [], "strictFriends": [], "nn": "x", "best": None, "bad": "ok"}
-    han = {"id": "2", "name": "han", "slow": "s-han", "slow2": "s2-han", "friends": [solo, dict(solo, id="8", name="chewie")], "strictFriends": [], "nn": "x", "best": None, "bad": Boom() if bad_raises else "ok"}
+    han = {"id": "2", "name": "han", "slow": "s-han", "slow2": "s2-han", "friends": [solo, dict(solo, id="8", name="chewie")], "strictFriends": [], "nn": "x", "best": solo, "bad": Boom() if bad_raises else "ok"}
     leia = dict(han, id="3", name="leia", slow="s-leia")
     luke = {"id": "1", "name": "luke", "slow": "s-luke", "slow2": "s2-luke", "friends": [han, leia, han, solo], "strictFriends": [han, None if nn_null else leia, han],
-            "nn": None if nn_null else "x", "best": han, "bad": Boom() if bad_raises else "ok"}
+            "nn": None if nn_null else "x", "best": han, "bad": Boom() if bad_raises else "ok",
+            "crew": [han, dict(leia, nn=None), han, solo]}
     return {"hero": luke, "heroes": [luke, han], "strict": luke, "n": 1}
 
 
 class SeparateIterable:
     """AsyncIterable whose __aiter__ returns a different object (the iterator)."""
 
-    def __init__(self, gen):
+    def __init__(self, gen, registry=None):
         self._gen = gen
+        self._registry = registry
 
     def __aiter__(self):
-        return SeparateIterator(self._gen)
+        it = SeparateIterator(self._gen)
+        if self._registry is not None:
+            self._registry.append(it)
+        return it
 
 
 class SeparateIterator:
+    """A hand-written async iterator: unlike an async generator it does not tolerate (hide) a
+    second aclose(), so it counts them."""
+
     def __init__(self, gen):
         self._gen = gen
+        self.aclose_calls = 0
 
     def __aiter__(self):
         return self
@@ -109,6 +128,7 @@ class SeparateIterator:
         return await self._gen.__anext__()
 
     async def aclose(self):
+        self.aclose_calls += 1
         await self._gen.aclose()
 
 
@@ -136,6 +156,7 @@ class World:
         self.inflight = set()
         self.gens_started = 0
         self.gens_closed = 0
+        self.iterators = []  # hand-written iterators handed out (list_kind 3)
         self.never = ()  # resolver positions whose awaitable never completes unless cancelled
 
     async def awaiter(self, label, fut):
@@ -149,7 +170,7 @@ class World:
         w = self
         fam = self.family
         asyncable = fam.asyncable if fam else ASYNCABLE
-        list_fields = fam.list_fields if fam else ("friends", "heroes", "strictFriends")
+        list_fields = fam.list_fields if fam else ("friends", "heroes", "strictFriends", "crew")
         for tname in (fam.types if fam else ("Hero", "Query")):
             t = schema.get_type(tname)
             for fname, fdef in t.fields.items():
@@ -169,7 +190,7 @@ class World:
                             finally:
                                 w.gens_closed += 1
                         if w.list_kind == 3:
-                            return SeparateIterable(gen())  # an AsyncIterable that is not its own iterator
+                            return SeparateIterable(gen(), w.iterators)  # an AsyncIterable that is not its own iterator
                         return gen()
                     if isinstance(v, list) and w.sched is not None and w.list_kind == 2 and fname in list_fields:
                         out = []
@@ -380,7 +401,10 @@ def reassemble(delivery: Delivery):
                 parent = label.rsplit(".", 1)[0]
                 # (a stream stays pending while its items -- and fragments deferred inside
                 # them -- are delivered; the clause is about enclosing deferred fragments)
-                enclosing = [q for q in pending if q != p["id"] and labels[q] == parent and not isinstance(_try_walk(data, pending[q]), list)]
+                # (the enclosing fragment is the pending one with the parent label whose path is a
+                # prefix of the nested one's: list items each carry their own instance of a label)
+                enclosing = [q for q in pending if q != p["id"] and labels[q] == parent and list(p["path"])[:len(pending[q])] == pending[q]
+                             and not isinstance(_try_walk(data, pending[q]), list)]
                 if enclosing:
                     raise ProtocolError("nested " + label + " announced while enclosing " + parent + " is still pending")
             if data is not None and p["id"] in pending:
